@@ -304,6 +304,24 @@ func (e *exprCtx) expr(v ssa.Value) string {
 	case *ssa.UnOp:
 		switch x.Op {
 		case token.MUL:
+			if fv, ok := x.X.(*ssa.FreeVar); ok {
+				// captured variable: resolve through the unique store to the captured cell in the parent
+				fn := fv.Parent()
+				if mc := e.c.closureSite(fn); mc != nil {
+					for i, f := range fn.FreeVars {
+						if f == fv && i < len(mc.Bindings) {
+							if a, ok := mc.Bindings[i].(*ssa.Alloc); ok {
+								if st := uniqueStore(a); st != nil && !e.seen[a] {
+									e.seen[a] = true
+									s := e.expr(st.Val)
+									delete(e.seen, a)
+									return "outer(" + s + ")"
+								}
+							}
+						}
+					}
+				}
+			}
 			if fa, ok := x.X.(*ssa.FieldAddr); ok {
 				if a, ok := fa.X.(*ssa.Alloc); ok && uniqueStore(a) == nil {
 					// composite literal / local struct field: resolve through the unique store to that field
@@ -1373,4 +1391,15 @@ func variadicElems(v ssa.Value) []ssa.Value {
 		out = append(out, e.val)
 	}
 	return out
+}
+
+func structNumFields(t types.Type) int {
+	if st, ok := t.Underlying().(*types.Struct); ok {
+		return st.NumFields()
+	}
+	return 0
+}
+
+func structField(t types.Type, i int) *types.Var {
+	return t.Underlying().(*types.Struct).Field(i)
 }
